@@ -131,7 +131,7 @@ def batch_runs(ctx, kinds=("span", "log"), focus=None):
     return runs
 
 
-def model_check_batch(ctx, invariants, expect_violation_with_devs=None, live=True):
+def model_check_batch(ctx, invariants, expect_violation_with_devs=None, live=True, with_devs=False):
     """TLC on the Level-B model.  Ideal (Dev = {}) must satisfy `invariants`; the as-implemented
     variant (Dev = known devs) must satisfy them too unless listed in expect_violation_with_devs."""
     thorough = ctx.tier == "thorough"
@@ -141,8 +141,10 @@ def model_check_batch(ctx, invariants, expect_violation_with_devs=None, live=Tru
         shapes += [(1, 2, 2, 1, 1, 1, 99), (2, 1, 1, 1, 1, 1, 99), (1, 2, 2, 2, 1, 2, 1), (1, 1, 1, 1, 2, 1, 99)]
     for variant in ("span", "log"):
         for (np_, nr, q, b, nf, ns, bud) in shapes:
+            # Dev = {} is the code as it is now (both deviations were repaired by a fix: commit); the
+            # historical variants are kept as named deviations and re-checked in the thorough tier of C03
             for devs in ([], BATCH_DEVS):
-                if variant == "log" and not thorough and devs:
+                if devs and not (with_devs and thorough):
                     continue
                 c = write_cfg(ctx, "mc.cfg", MC_CFG % (np_, nr, q, b, nf, ns, bud, variant, _q(devs), "Spec", inv_line))
                 r = tlc.tlc("BatchProcessor", c, rundir=ctx.rundir.path, workers=12, timeout_s=2400 if thorough else 420,
@@ -159,7 +161,7 @@ def model_check_batch(ctx, invariants, expect_violation_with_devs=None, live=Tru
                     continue
                 tlc.must_ok(r, name)
     if live:
-        c = write_cfg(ctx, "mcl.cfg", MC_CFG % (1, 1, 1, 1, 1, 1, 1, "span", "", "Spec",
+        c = write_cfg(ctx, "mcl.cfg", MC_CFG % (1 if thorough else 0, 1, 1, 1, 1, 1, 1, "span", "", "Spec",
                                                  "PROPERTY Termination2\nCHECK_DEADLOCK FALSE"))
         r = tlc.tlc("BatchProcessor", c, rundir=ctx.rundir.path, workers=12, timeout_s=900, xmx="20g", tag="mclive", deadlock=True)
         ctx.add_tlc("BatchProcessor liveness: every ForceFlush/Shutdown returns (WF, tiny config)", r)
